@@ -144,6 +144,8 @@ theorem visit_ok {lv : Level} {m res : Rat} {st st' : LState} {u : Nat}
     ∃ cur w2c best, alookup st.node2com u = some cur ∧ neighborWeights lv.g u st.node2com = .ok w2c ∧
       (best = cur ∨ best ∈ w2c.map (·.1)) ∧
       st'.di.inDeg = st.di.inDeg ∧ st'.di.outDeg = st.di.outDeg ∧ st'.di.deg = st.di.deg ∧
+      st'.di.stotIn.length = st.di.stotIn.length ∧ st'.di.stotOut.length = st.di.stotOut.length ∧
+      st'.di.stot.length = st.di.stot.length ∧
       ((best ≠ cur ∧ st' = moved lv st u cur best st'.di st'.risky) ∨
        (best = cur ∧ st' = { st with di := st'.di, risky := st'.risky })) := by
   unfold visit at hv
@@ -158,19 +160,43 @@ theorem visit_ok {lv : Level} {m res : Rat} {st st' : LState} {u : Nat}
       simp only [h1, h2, Outcome.ofOption] at hv
       split at hv
       next x trip hx =>
-        generalize hb : (Louvain.updateBest _ w2c (cur, 0)).fst = best at hv
-        have hbest : best = cur ∨ best ∈ w2c.map (·.1) := by rw [← hb]; exact updateBest_fst _ w2c (cur, 0)
-        by_cases hne : (best != cur) = true
-        · rw [if_pos hne] at hv
-          injection hv with hv
-          subst hv
-          refine ⟨cur, w2c, best, rfl, rfl, hbest, ?_, ?_, ?_, Or.inl ⟨by simpa using hne, rfl⟩⟩
-          all_goals (dsimp only; split <;> rfl)
-        · rw [if_neg hne] at hv
-          injection hv with hv
-          subst hv
-          refine ⟨cur, w2c, best, rfl, rfl, hbest, ?_, ?_, ?_, Or.inr ⟨by simpa using hne, rfl⟩⟩
-          all_goals (dsimp only; split <;> rfl)
+        split at hv
+        next y _u1 hg1 =>
+          split at hv
+          next z _u2 hg2 =>
+            generalize hb : (Louvain.updateBest _ w2c (cur, 0)).fst = best at hv
+            have hbest : best = cur ∨ best ∈ w2c.map (·.1) := by rw [← hb]; exact updateBest_fst _ w2c (cur, 0)
+            split at hv
+            next w _u3 hg3 =>
+              by_cases hne : (best != cur) = true
+              · rw [if_pos hne] at hv
+                split at hv
+                next _ _ _ =>
+                  split at hv
+                  next _ _ _ =>
+                    split at hv
+                    next _ _ _ =>
+                      split at hv
+                      next _ _ _ =>
+                        split at hv
+                        next _ _ _ =>
+                          injection hv with hv
+                          subst hv
+                          refine ⟨cur, w2c, best, rfl, rfl, hbest, ?_, ?_, ?_, ?_, ?_, ?_, Or.inl ⟨by simpa using hne, rfl⟩⟩
+                          all_goals (dsimp only; split <;> simp [setR])
+                        all_goals (exact absurd hv (by simp))
+                      all_goals (exact absurd hv (by simp))
+                    all_goals (exact absurd hv (by simp))
+                  all_goals (exact absurd hv (by simp))
+                all_goals (exact absurd hv (by simp))
+              · rw [if_neg hne] at hv
+                injection hv with hv
+                subst hv
+                refine ⟨cur, w2c, best, rfl, rfl, hbest, ?_, ?_, ?_, ?_, ?_, ?_, Or.inr ⟨by simpa using hne, rfl⟩⟩
+                all_goals (dsimp only; split <;> simp [setR])
+            all_goals (exact absurd hv (by simp))
+          all_goals (exact absurd hv (by simp))
+        all_goals (exact absurd hv (by simp))
       all_goals (exact absurd hv (by simp))
 
 theorem getD_set {α} (l : List (List α)) (i j : Nat) (a : List α) :
